@@ -1,0 +1,483 @@
+//! Verification hooks, only compiled with `--cfg cfr_verif`
+//!
+//! Nothing in here is part of the supported api. The hooks let an external harness (a) dump the
+//! compact game, (b) pin or observe the random draws of the sampled solvers, (c) inject and extract
+//! the raw accumulators of a solve and (d) record a sequence-numbered event log of a solve. With
+//! nothing configured every hook is a no-op behind one relaxed atomic load.
+use crate::{Game, Node, PlayerNum, Strategies};
+use std::collections::HashMap;
+use std::sync::atomic::{AtomicBool, AtomicU64, AtomicUsize, Ordering};
+use std::sync::Mutex;
+
+/// A node of the compact game in preorder numbering (ids are zero based, root is zero)
+#[derive(Debug, Clone, PartialEq)]
+pub enum DumpNode {
+    /// terminal with payoff to player one
+    Terminal(f64),
+    /// chance node: chance infoset index and child ids
+    Chance(usize, Vec<usize>),
+    /// player node: player (0 or 1), infoset index and child ids
+    Player(usize, usize, Vec<usize>),
+}
+
+/// A player infoset of the compact game
+#[derive(Debug, Clone, PartialEq)]
+pub struct DumpInfo<I, A> {
+    /// infoset name
+    pub infoset: I,
+    /// action names in order
+    pub actions: Vec<A>,
+    /// previous infoset index of the same player
+    pub prev_infoset: Option<usize>,
+}
+
+/// The compact game
+#[derive(Debug, Clone, PartialEq)]
+pub struct Dump<I, A> {
+    /// nodes in preorder
+    pub nodes: Vec<DumpNode>,
+    /// normalised probabilities of every chance infoset
+    pub chance: Vec<Vec<f64>>,
+    /// multi action infosets of each player
+    pub infos: [Vec<DumpInfo<I, A>>; 2],
+    /// single action infosets of each player
+    pub singles: [Vec<(I, A)>; 2],
+}
+
+fn dump_rec(node: &Node, out: &mut Vec<DumpNode>) -> usize {
+    let id = out.len();
+    match node {
+        Node::Terminal(pay) => out.push(DumpNode::Terminal(*pay)),
+        Node::Chance(chance) => {
+            out.push(DumpNode::Chance(chance.infoset, Vec::new()));
+            let kids: Vec<usize> = chance.outcomes.iter().map(|n| dump_rec(n, out)).collect();
+            out[id] = DumpNode::Chance(chance.infoset, kids);
+        }
+        Node::Player(player) => {
+            let num = match player.num {
+                PlayerNum::One => 0,
+                PlayerNum::Two => 1,
+            };
+            out.push(DumpNode::Player(num, player.infoset, Vec::new()));
+            let kids: Vec<usize> = player.actions.iter().map(|n| dump_rec(n, out)).collect();
+            out[id] = DumpNode::Player(num, player.infoset, kids);
+        }
+    }
+    id
+}
+
+impl<I: Clone, A: Clone> Game<I, A> {
+    /// Dump the compact representation
+    pub fn verif_dump(&self) -> Dump<I, A> {
+        let mut nodes = Vec::new();
+        dump_rec(&self.root, &mut nodes);
+        let infos = |ind: usize| -> Vec<DumpInfo<I, A>> {
+            self.player_infosets[ind]
+                .iter()
+                .map(|info| DumpInfo {
+                    infoset: info.infoset.clone(),
+                    actions: info.actions.to_vec(),
+                    prev_infoset: info.prev_infoset,
+                })
+                .collect()
+        };
+        Dump {
+            nodes,
+            chance: self
+                .chance_infosets
+                .iter()
+                .map(|c| c.probs.to_vec())
+                .collect(),
+            infos: [infos(0), infos(1)],
+            singles: [
+                self.single_infosets[0].to_vec(),
+                self.single_infosets[1].to_vec(),
+            ],
+        }
+    }
+}
+
+impl<I, A> Strategies<'_, I, A> {
+    /// The dense probability vectors, including zero entries
+    pub fn verif_dense(&self) -> [Vec<f64>; 2] {
+        [self.probs[0].to_vec(), self.probs[1].to_vec()]
+    }
+}
+
+/// Call the private categorical sampler with a fixed uniform variate
+pub fn multinomial_sample(probs: &[f64], u: f64) -> usize {
+    crate::solve::verif_multinomial(probs, u)
+}
+
+/// Raw accumulators of one infoset
+#[derive(Debug, Clone, PartialEq, Default)]
+pub struct InfoState {
+    /// cumulative regret
+    pub cum_regret: Vec<f64>,
+    /// cumulative strategy
+    pub cum_strat: Vec<f64>,
+    /// current strategy
+    pub strat: Vec<f64>,
+}
+
+/// Raw accumulators of a solve
+pub type State = [Vec<InfoState>; 2];
+
+/// What a draw site is
+#[derive(Debug, Clone, Copy, PartialEq, Eq, Hash)]
+pub enum Site {
+    /// chance infoset
+    Chance,
+    /// infoset of player one
+    One,
+    /// infoset of player two
+    Two,
+}
+
+/// An event of the log
+#[derive(Debug, Clone, PartialEq)]
+pub enum Event {
+    /// a solve started (method: 0 full, 1 sampled, 2 external; threads)
+    Begin(usize, usize),
+    /// a random draw: site, infoset index, pass counter of the site, weights, result, overridden
+    Draw(Site, usize, u64, Vec<f64>, usize, bool),
+    /// the frontier after thread_threshold: task roots and leftover work (node ids)
+    Frontier(Vec<usize>, Vec<usize>),
+    /// a task started at a node
+    Task(usize),
+    /// all tasks of the pass have finished
+    TasksDone,
+    /// a node was entered (node id, answered from the payoff cache, rayon thread index + 1 or 0)
+    Visit(usize, bool, usize),
+    /// an infoset lock was tried (player index, infoset, success)
+    Lock(usize, usize, bool),
+    /// a pass is over (iteration, player index whose pass it was or 2 for both)
+    PassEnd(u64, usize),
+    /// an iteration is over: iteration and the two bounds
+    IterEnd(u64, [f64; 2]),
+}
+
+#[derive(Default)]
+struct Config {
+    draw_seed: Option<u64>,
+    draw_table: Option<HashMap<(Site, usize, u64), usize>>,
+    inject: Option<State>,
+}
+
+static ACTIVE: AtomicBool = AtomicBool::new(false);
+static RECORD: AtomicBool = AtomicBool::new(false);
+static RECORD_VISITS: AtomicBool = AtomicBool::new(false);
+static YIELD_SEED: AtomicU64 = AtomicU64::new(0);
+static YIELD_CTR: AtomicU64 = AtomicU64::new(0);
+static FIRST_IT: AtomicU64 = AtomicU64::new(0);
+static CHANCE_IDS: AtomicUsize = AtomicUsize::new(0);
+static PLAYER_IDS: AtomicUsize = AtomicUsize::new(0);
+static NUM_ONE: AtomicUsize = AtomicUsize::new(0);
+static CONFIG: Mutex<Option<Config>> = Mutex::new(None);
+static LOG: Mutex<Vec<Event>> = Mutex::new(Vec::new());
+static EXTRACT: Mutex<Option<State>> = Mutex::new(None);
+static NODE_IDS: Mutex<Option<HashMap<usize, usize>>> = Mutex::new(None);
+
+fn with_config<T>(f: impl FnOnce(&mut Config) -> T) -> T {
+    let mut guard = CONFIG.lock().unwrap_or_else(|e| e.into_inner());
+    f(guard.get_or_insert_with(Config::default))
+}
+
+/// Reset every hook to its inactive state and clear the log
+pub fn reset() {
+    ACTIVE.store(false, Ordering::SeqCst);
+    RECORD.store(false, Ordering::SeqCst);
+    RECORD_VISITS.store(false, Ordering::SeqCst);
+    YIELD_SEED.store(0, Ordering::SeqCst);
+    FIRST_IT.store(0, Ordering::SeqCst);
+    *CONFIG.lock().unwrap_or_else(|e| e.into_inner()) = None;
+    LOG.lock().unwrap_or_else(|e| e.into_inner()).clear();
+    *EXTRACT.lock().unwrap_or_else(|e| e.into_inner()) = None;
+}
+
+/// Pin all draws to a pure function of `(seed, site, infoset, pass)`
+pub fn set_draw_seed(seed: Option<u64>) {
+    with_config(|c| c.draw_seed = seed);
+    ACTIVE.store(true, Ordering::SeqCst);
+}
+
+/// Pin the listed draws to the given indices (consulted before the seed)
+pub fn set_draw_table(table: Option<HashMap<(Site, usize, u64), usize>>) {
+    with_config(|c| c.draw_table = table);
+    ACTIVE.store(true, Ordering::SeqCst);
+}
+
+/// Overwrite the accumulators at solver entry
+pub fn set_inject(state: Option<State>) {
+    with_config(|c| c.inject = state);
+    ACTIVE.store(true, Ordering::SeqCst);
+}
+
+/// Skip all iterations with an index below this one
+pub fn set_first_it(it: u64) {
+    FIRST_IT.store(it, Ordering::SeqCst);
+    ACTIVE.store(true, Ordering::SeqCst);
+}
+
+/// Record events (and, if `visits`, every node visit)
+pub fn set_record(events: bool, visits: bool) {
+    RECORD.store(events, Ordering::SeqCst);
+    RECORD_VISITS.store(visits, Ordering::SeqCst);
+    ACTIVE.store(true, Ordering::SeqCst);
+}
+
+/// Yield or spin at visits as a pure function of the seed and a global counter; zero disables
+pub fn set_yield_seed(seed: u64) {
+    YIELD_SEED.store(seed, Ordering::SeqCst);
+    ACTIVE.store(true, Ordering::SeqCst);
+}
+
+/// Take the recorded events
+pub fn take_log() -> Vec<Event> {
+    std::mem::take(&mut *LOG.lock().unwrap_or_else(|e| e.into_inner()))
+}
+
+/// Take the accumulators extracted at the end of the last solve
+pub fn take_extract() -> Option<State> {
+    EXTRACT.lock().unwrap_or_else(|e| e.into_inner()).take()
+}
+
+fn mix(mut z: u64) -> u64 {
+    z = z.wrapping_add(0x9e3779b97f4a7c15);
+    z = (z ^ (z >> 30)).wrapping_mul(0xbf58476d1ce4e5b9);
+    z = (z ^ (z >> 27)).wrapping_mul(0x94d049bb133111eb);
+    z ^ (z >> 31)
+}
+
+/// The uniform variate in `[0, 1)` that a seeded override uses at a site
+pub fn variate(seed: u64, site: Site, info: usize, pass: u64) -> f64 {
+    let kind = match site {
+        Site::Chance => 1,
+        Site::One => 2,
+        Site::Two => 3,
+    };
+    let bits = mix(mix(mix(mix(seed) ^ kind) ^ info as u64) ^ pass);
+    (bits >> 11) as f64 / (1u64 << 53) as f64
+}
+
+fn push(event: Event) {
+    LOG.lock().unwrap_or_else(|e| e.into_inner()).push(event);
+}
+
+pub(crate) fn active() -> bool {
+    ACTIVE.load(Ordering::Relaxed)
+}
+
+pub(crate) fn first_it() -> u64 {
+    if active() {
+        FIRST_IT.load(Ordering::Relaxed)
+    } else {
+        0
+    }
+}
+
+fn walk_ids(node: &Node, ids: &mut HashMap<usize, usize>) {
+    let id = ids.len();
+    ids.insert(node as *const Node as usize, id);
+    match node {
+        Node::Terminal(_) => {}
+        Node::Chance(chance) => chance.outcomes.iter().for_each(|n| walk_ids(n, ids)),
+        Node::Player(player) => player.actions.iter().for_each(|n| walk_ids(n, ids)),
+    }
+}
+
+pub(crate) fn begin_solve(root: &Node, num_one: usize, method: usize, threads: usize) {
+    if !active() {
+        return;
+    }
+    CHANCE_IDS.store(0, Ordering::SeqCst);
+    PLAYER_IDS.store(0, Ordering::SeqCst);
+    NUM_ONE.store(num_one, Ordering::SeqCst);
+    YIELD_CTR.store(0, Ordering::SeqCst);
+    let mut ids = HashMap::new();
+    walk_ids(root, &mut ids);
+    *NODE_IDS.lock().unwrap_or_else(|e| e.into_inner()) = Some(ids);
+    if RECORD.load(Ordering::Relaxed) {
+        push(Event::Begin(method, threads));
+    }
+}
+
+pub(crate) fn next_chance_id() -> usize {
+    CHANCE_IDS.fetch_add(1, Ordering::SeqCst)
+}
+
+pub(crate) fn next_player_id() -> usize {
+    PLAYER_IDS.fetch_add(1, Ordering::SeqCst)
+}
+
+fn player_site(vid: usize) -> (Site, usize) {
+    let num_one = NUM_ONE.load(Ordering::Relaxed);
+    if vid < num_one {
+        (Site::One, vid)
+    } else {
+        (Site::Two, vid - num_one)
+    }
+}
+
+fn node_id(node: &Node) -> usize {
+    NODE_IDS
+        .lock()
+        .unwrap_or_else(|e| e.into_inner())
+        .as_ref()
+        .and_then(|ids| ids.get(&(node as *const Node as usize)).copied())
+        .unwrap_or(usize::MAX)
+}
+
+fn inverse_cdf(probs: &[f64], u: f64) -> usize {
+    let mut acc = 0.0;
+    for (ind, prob) in probs.iter().enumerate() {
+        acc += prob;
+        if u < acc {
+            return ind;
+        }
+    }
+    probs.len() - 1
+}
+
+/// An overridden chance draw, if any is configured
+pub(crate) fn chance_draw(vid: usize, pass: u64, probs: &[f64]) -> Option<usize> {
+    if !active() {
+        return None;
+    }
+    let res = with_config(|c| {
+        if let Some(ix) = c
+            .draw_table
+            .as_ref()
+            .and_then(|t| t.get(&(Site::Chance, vid, pass)))
+        {
+            Some((*ix).min(probs.len() - 1))
+        } else {
+            c.draw_seed
+                .map(|seed| inverse_cdf(probs, variate(seed, Site::Chance, vid, pass)))
+        }
+    });
+    if let Some(ix) = res {
+        if RECORD.load(Ordering::Relaxed) {
+            push(Event::Draw(Site::Chance, vid, pass, probs.to_vec(), ix, true));
+        }
+    }
+    res
+}
+
+/// An overridden player draw, if any is configured
+pub(crate) fn player_draw(vid: usize, pass: u64, strat: &[f64]) -> Option<usize> {
+    if !active() {
+        return None;
+    }
+    let (site, info) = player_site(vid);
+    let res = with_config(|c| {
+        if let Some(ix) = c.draw_table.as_ref().and_then(|t| t.get(&(site, info, pass))) {
+            Some((*ix).min(strat.len() - 1))
+        } else {
+            c.draw_seed
+                .map(|seed| crate::solve::verif_multinomial(strat, variate(seed, site, info, pass)))
+        }
+    });
+    if let Some(ix) = res {
+        if RECORD.load(Ordering::Relaxed) {
+            push(Event::Draw(site, info, pass, strat.to_vec(), ix, true));
+        }
+    }
+    res
+}
+
+/// Observe a draw made by the production generator
+pub(crate) fn observe_chance(vid: usize, pass: u64, probs: &[f64], ix: usize) {
+    if active() && RECORD.load(Ordering::Relaxed) {
+        push(Event::Draw(Site::Chance, vid, pass, probs.to_vec(), ix, false));
+    }
+}
+
+/// Observe a draw made by the production generator
+pub(crate) fn observe_player(vid: usize, pass: u64, strat: &[f64], ix: usize) {
+    if active() && RECORD.load(Ordering::Relaxed) {
+        let (site, info) = player_site(vid);
+        push(Event::Draw(site, info, pass, strat.to_vec(), ix, false));
+    }
+}
+
+pub(crate) fn visit(node: &Node, cached: bool) {
+    if !active() {
+        return;
+    }
+    let seed = YIELD_SEED.load(Ordering::Relaxed);
+    if seed != 0 {
+        let ctr = YIELD_CTR.fetch_add(1, Ordering::Relaxed);
+        match mix(seed ^ mix(ctr)) % 8 {
+            0 | 1 => std::thread::yield_now(),
+            2 => {
+                for _ in 0..200 {
+                    std::hint::spin_loop();
+                }
+            }
+            _ => {}
+        }
+    }
+    if RECORD_VISITS.load(Ordering::Relaxed) {
+        let thread = rayon::current_thread_index().map_or(0, |i| i + 1);
+        push(Event::Visit(node_id(node), cached, thread));
+    }
+}
+
+pub(crate) fn frontier<'a>(
+    queue: impl Iterator<Item = &'a Node>,
+    work: impl Iterator<Item = &'a Node>,
+) {
+    if active() && RECORD.load(Ordering::Relaxed) {
+        push(Event::Frontier(
+            queue.map(node_id).collect(),
+            work.map(node_id).collect(),
+        ));
+    }
+}
+
+pub(crate) fn task(node: &Node) {
+    if active() && RECORD.load(Ordering::Relaxed) {
+        push(Event::Task(node_id(node)));
+    }
+}
+
+pub(crate) fn tasks_done() {
+    if active() && RECORD.load(Ordering::Relaxed) {
+        push(Event::TasksDone);
+    }
+}
+
+pub(crate) fn lock(player: usize, info: usize, ok: bool) {
+    if active() && RECORD.load(Ordering::Relaxed) {
+        push(Event::Lock(player, info, ok));
+    }
+}
+
+pub(crate) fn pass_end(it: u64, player: usize) {
+    if active() && RECORD.load(Ordering::Relaxed) {
+        push(Event::PassEnd(it, player));
+    }
+}
+
+pub(crate) fn iter_end(it: u64, bounds: [f64; 2]) {
+    if active() && RECORD.load(Ordering::Relaxed) {
+        push(Event::IterEnd(it, bounds));
+    }
+}
+
+/// The state to inject at solver entry, if any
+pub(crate) fn injected() -> Option<State> {
+    if active() {
+        with_config(|c| c.inject.clone())
+    } else {
+        None
+    }
+}
+
+/// Store the accumulators at solver exit
+pub(crate) fn extracted(state: State) {
+    if active() {
+        *EXTRACT.lock().unwrap_or_else(|e| e.into_inner()) = Some(state);
+    }
+}
